@@ -473,6 +473,11 @@ def cls_cases(ctx):
             if r.random() < 0.5:
                 f['cond'] = gen_cond(r, L, f20_ok)
                 f['place'] = r.choice(['field', 'annotated'])
+            # json_field() makes a positional (not kw_only) dataclass field: one without a default may not
+            # follow one with a default
+            if not f['dump'] and f.get('dump_via') == 'field' and f['default'] is None and \
+                    any((not g['dump']) and g.get('dump_via') == 'field' and g['default'] is not None for g in fields):
+                f['dump_via'] = 'annotated'
             fields.append(f)
         insts = []
         for _ in range(2):
